@@ -502,7 +502,7 @@ func ruleAllCopiesTried(c *eng.Ctx) {
 		c.Check(len(calls) == 2, rule, "LoadBlob:retries-without-cache", lb.Pos(), "LoadBlob calls loadBlob twice (%d)", len(calls))
 		if len(calls) == 2 {
 			c.MustPass(rule, "LoadBlob:second-round-only-after-failure", eng.Entry(lb), calls[1].(ssa.Instruction), eng.NewCut().AddEdges(eng.FailureEdges(calls[0])...), "the first round failed")
-			forget := c.P.CallsWhere(lb, func(call ssa.CallInstruction) bool { return eng.MethodName(call) == "Forget" })
+			forget := callsReaching(c, lb, 2, func(call ssa.CallInstruction) bool { return eng.MethodName(call) == "Forget" })
 			cacheF := c.P.Field(pkgRepo+".Repository", "cache")
 			cut := eng.CallCut(forget...)
 			cut.AddEdges(eng.NilEdges(lb, func(v ssa.Value) bool { return eng.LoadsField(v, cacheF) }, true)...)
